@@ -67,6 +67,18 @@ Theorem C05_single_waveform_refuted_parallel : exists p S, ~ same_play p S.
 Proof. exists w_par_times_2, [2%N]. exact refute_single_parallel. Qed.
 Print Assumptions C05_single_waveform_refuted_parallel.
 
+(* collapsing an ATOMIC template is the identity on builder states (the sub-program is one leaf, to_waveform hands it
+   back, the windows move from the sub-program to the parent unchanged): for every S, mapping, transformation and
+   builder state.  This is why the reversal clause of the guard only excludes collapsed COMPOSITE templates. *)
+Theorem C05_atom_collapse_identity : forall S i m d chs cm mm X b,
+  create S (internal S) (PAtom i m d chs) cm mm X b = internal [] (PAtom i m d chs) cm mm X b.
+Proof. exact create_atom_collapse. Qed.
+Print Assumptions C05_atom_collapse_identity.
+(* the refuted witness is outside the shrunk guard; an atom collapsed below the same reversal is inside *)
+Example C05_reversal_guard_exact :
+  guard_C05_single_waveform [3%N] w_rev = false /\ guard_C05_single_waveform [6%N; 1%N] w_rev = true.
+Proof. split; vm_compute; reflexivity. Qed.
+
 (* the guards are satisfiable by a non-trivial input (arithmetic around a parallel channel, reversal, repetition,
    three collapsed nodes) and the guarded theorem is not vacuous on it *)
 Example C05_guards_satisfiable :
